@@ -120,8 +120,8 @@ def compile (d : Dialect) (t : TRef) (c : String) : Construct → Except Err Stm
   | .columnComment cm =>
     match d with
     | .postgresql => .ok (.comment t c cm)
-    -- Oracle: raw table name, the schema is not rendered; `None` is rendered as `''`
-    | .oracle => .ok (.comment ⟨none, t.table⟩ c (some (cm.getD "")))
+    -- Oracle: `None` is rendered as `''`
+    | .oracle => .ok (.comment t c (some (cm.getD "")))
     | _ => .error .unsupportedCompilation
   | .columnName n =>
     if d.isMySQL then .error .notImplemented
@@ -301,6 +301,13 @@ def addTypeConstraint (d : Dialect) (t : TRef) (c : String) (ty : Ty) : Out :=
     | .sqlite => Out.ok
     | _ => emitAll d t c [.addConstraint nm]
 
+/-- `new_column_name or column_name`: the name the new type's constraint is built on (the
+constraint is added after the dialect's alter may have renamed the column) -/
+def newColumn (r : Req) : String :=
+  match r.newName with
+  | some n => if n = "" then r.column else n
+  | none => r.column
+
 /-- `alembic/operations/toimpl.py: alter_column` -/
 def alterColumn (d : Dialect) (r : Req) : Out :=
   (match r.exType, r.type_ with
@@ -308,7 +315,7 @@ def alterColumn (d : Dialect) (r : Req) : Out :=
     | _, _ => Out.ok).andThen
   ((implAlter d r).andThen
    (match r.type_ with
-    | some t => addTypeConstraint d (tref r) r.column t
+    | some t => addTypeConstraint d (tref r) (newColumn r) t
     | none => Out.ok))
 
 end Model.Alter
